@@ -123,7 +123,8 @@ def eval_frame(c, name, pf, da, sa, data, cls, acc, sc, flags=None):
     n0 = len(c.rec.items)
     tx0 = len([f for f in c.bus.log if f.src == 'X'])
     before = c.idle_state()
-    can_id = (6 << 26) | (pf << 16) | (da << 8) | sa
+    can_id = (6 << 26) | ((pf >> 8) << 24) | ((pf & 0xFF) << 16) | (da << 8) | sa
+    pf &= 0xFF
     if flags is None:
         c.ghost.send(can_id, bytes(data), fd=(c.dll == 'j1939-22'))
         w.run_for(0.0005)
@@ -227,6 +228,29 @@ def worker(item):
             c.close()
         acc.sample({'dll': dll, 'configuration': cfg, 'destinations': [das[0], das[-1]],
                     'frame': {'name': 'PDU1 data', 'pf': 0xD0, 'da': das[0], 'sa': FOREIGN_SA}})
+    elif kind == 'pfsweep':
+        # every PDU format x {owned CA address, integer-listener address, predicate address, unowned, null, global}
+        _k, dll, ci, seed = item
+        cfg = CONFIGS[ci]
+        sc = {'kind': 'pfsweep', 'dll': dll, 'cfg': ci}
+        c = Cfg(dll, cfg)
+        try:
+            proto = {0xEA, 0xEE, 0xEC, 0xEB} | ({0x4D, 0x4E, 0x25} if dll == 'j1939-22' else set())
+            for pf in range(256):
+                cls = 'proto' if pf in proto else ('pdu2' if pf >= 240 else 'ord')
+                for da in (0x10, 0x20, INT_ADDR, 0x60, 0x33, 0xFE, 0xFF):
+                    for dp in (0, 1):
+                        data = [pf & 0xFF, 2, 3, 4, 5, 6, 7, 8] if pf not in (0x25,) else [0x40, 0xD0, 0x00, 4, 1, 2, 3, 4]
+                        dirty = eval_frame(c, 'PF %d' % pf, pf | (dp << 8), da, FOREIGN_SA, data, cls, acc, sc)
+                        if dirty:
+                            if c.has_wait:
+                                c.close()
+                                c = Cfg(dll, cfg)
+                            else:
+                                c.w.run_for(3.2)
+        finally:
+            c.close()
+        acc.sample({'dll': dll, 'configuration': cfg, 'sweep': 'all 256 PDU formats x data page x 7 destinations'})
     elif kind == 'flags':
         _k, dll, ci, seed = item
         cfg = CONFIGS[ci]
@@ -304,6 +328,9 @@ def run(tier, seed):
                 items.append(('matrix', dll, ci, das[i:i + n], seed))
         for ci in (1, 3, 7):
             items.append(('flags', dll, ci, seed))
+        for ci in ((2, 4, 7) if quick else range(len(CONFIGS))):
+            if not any(s == 'W' for s, _a in CONFIGS[ci]['cas']):
+                items.append(('pfsweep', dll, ci, seed))
         for wins in ((1, 1), (2, 3), (255, 255)):
             items.append(('bystander', dll, wins, seed))
     return run_check(PROP, tier, seed, 'exploration', items, worker, RULE, ASSUME,
